@@ -180,3 +180,26 @@ def usable(s):
 def optimal_format(op, fx, fy):
     return {'add': R.fmt_add, 'sub': R.fmt_add, 'mul': R.fmt_mul, 'truediv': R.fmt_truediv, 'floordiv': R.fmt_floordiv,
             'mod': R.fmt_mod}[op](fx, fy)
+
+
+def resolve_target(ai):
+    """imposed target of an arithmetic event with two Fxp operands -> (format, rounding, overflow, way) or None.
+    Governing configuration: first operand's, or out / out_like when given."""
+    if ai.x is None or ai.y is None:
+        return None
+    fx, fy = ai.x.fmt(), ai.y.fmt()
+    if ai.out is not None:
+        t = ai.out_pre
+        if t is None or not usable(t):
+            return None
+        return t.fmt(), t.rounding, t.overflow, 'out'
+    if ai.out_like is not None:
+        t = ai.out_like_pre
+        if t is None or not usable(t):
+            return None
+        return t.fmt(), t.rounding, t.overflow, 'out_like'
+    if ai.sizing == 'optimal':
+        return optimal_format(ai.op, fx, fy), ai.x.rounding, ai.x.overflow, 'optimal'
+    if ai.sizing in ('same', 'largest', 'smallest'):
+        return R.fmt_policy(ai.sizing, fx, fy), ai.x.rounding, ai.x.overflow, ai.sizing
+    return None
